@@ -149,7 +149,7 @@ pub(super) fn animate<T: Component>(
             }
             continue;
         }
-        let position_secs = animator.timeline_position.as_secs_f32();
+        let position_secs = animator.timeline_position.as_secs_f64() as f32;
         let timeline = animator.timeline.as_ref().unwrap();
         // Early assignments are needed to make Rust's borrow checker happy; it won't let us read
         // from the `timeline` struct anymore after the `update`.
